@@ -16,7 +16,11 @@ _ROTN = (8, 1e-15)    # their unit normals
 CFG = dict(
     gen=[dict(tool="facts", mode="c18.cube", out="CubeTable.lean")],
     # theorems: maintained by the C18 builder
-    theorems=["cubeWelded_closed", "quadTris_eq_table", "cubeQuads_closed_mod_merge"],
+    theorems=["uvSphere_closed", "uvSphereUnwelded_closed_mod_merge", "hemisphere_closed", "cylinder_closed_mod_merge",
+              "cubeWelded_closed", "quadTris_eq_table", "cubeQuads_closed_mod_merge",
+              "uvSphere_outward", "uvSphereUnwelded_outward", "sphere_normals_outward",
+              "cube_outward", "cubeWeldedPos_eq_table", "cube_normals_outward", "cubeQuads_outward",
+              "cylinder_outward", "cylinder_normals_outward"],
     streams=[dict(name="c18", n=dict(quick=30, thorough=60),
                   ulps={"c18.pos.sphere": _SIN, "c18.pos.sphereu": _SIN, "c18.pos.hemi": _SIN, "c18.nrm.sphere": _SINN,
                         "c18.pos.cyl": _ROT, "c18.nrm.cyl": _ROTN, "c18.pos.cubeq": _ROT, "c18.nrm.cubeq": _ROTN})],
